@@ -148,7 +148,7 @@ func (c *Ctx) newGen(mc MsgCase, dom string) *Gen {
 	if c.thorough() {
 		P = 12
 	}
-	g := &Gen{w: c.w, sc: c.sc, Dom: dom, P: P, Slack: 0, PLen: mc.PLen - 1}
+	g := &Gen{w: c.w, sc: c.sc, Dom: dom, P: P, Slack: 0, PLen: mc.PLen - 1, FixLen: c.fixLen}
 	if dom == "wide" {
 		g.Slack = 2
 	}
